@@ -510,7 +510,8 @@ def gen_outcomes(rng, prog, feats, p_err=0.25):
     return out
 
 
-def default_outcome_fn(seed, p_err, vals=('go', 'stop', 'again', 'brk')):
+def default_outcome_fn(seed, p_err, vals=('go', 'stop', 'again', 'brk'),
+                       special=True):
     """Deterministic pseudo-random outcome for (tag, item, attempt)."""
     import hashlib
 
@@ -521,7 +522,7 @@ def default_outcome_fn(seed, p_err, vals=('go', 'stop', 'again', 'brk')):
         if r < p_err:
             return ('err', 'E:%s/%s/%s' % (tag, item, n))
         r2 = d[1] / 255.0
-        if r2 < 0.45:
+        if special and r2 < 0.45:
             return ('ok', vals[d[2] % len(vals)])
         return ('ok', 'R:%s/%s/%s' % (tag, item, n))
 
